@@ -258,6 +258,12 @@ def check_run(s: S.Sim, profile: str, res: CompResult, ops: list[str]) -> None:
         if not unbounded:
             fire(["C02", "C10"] if crashy else ["C02"], f"no-end:{cfg.mode}", f"the run did not end within {cfg.max_steps} steps ({len(s.workers)} workers started)")
         return
+    if kind == "noworkers":
+        odd = [w.id for w in s.workers if w.number >= cfg.numnodes and (w.ids != f.ref if f.lb else w.number in cfg.node_ids)]
+        if odd:
+            fire(["C09"], f"no-workers-left-after-disagreeing-replacement:{cfg.mode}",
+                 f"replacement {odd} collected differently, was shut down / unusable, and no worker is left: RuntimeError 'no active workers'")
+            return
     if kind in ("error", "noworkers"):
         props = ["C17"]
         if not crashy and not cfg.boot_crash:
